@@ -175,9 +175,10 @@ impl IntoIterator for Reg {
                 }
             }
             Reg::Tmp(i, _) => {
-                if i > 15 {
+                // libccp has 8 temporary registers (MAX_TMP_REG)
+                if i > 7 {
                     Err(Error::from(format!(
-                        "Tmp Register index too big (max 15): {:?}",
+                        "Tmp Register index too big (max 7): {:?}",
                         i
                     )))
                 } else {
